@@ -70,7 +70,9 @@ RULE_X = ("interleave: case = (bundle policy, media kinds in creation order, BUN
           "that mutate the transport sets (setRemoteDescription / setLocalDescription of both peers) x k = 0..4 on 4 configurations "
           "+ 40 sampled (call, k, closer) over every call of the plain script + ~48 systematic session histories (things created "
           "after the remote aborted the association / closed / lost its sockets; follow-up offer not answered; answerer sendonly / "
-          "inactive / recvonly; wrong DTLS fingerprint; transceivers stopped by the application before / after connecting); "
+          "inactive / recvonly; wrong DTLS fingerprint; transceivers stopped by the application before / after connecting; the remote "
+          "SCTP stack sending SHUTDOWN / SHUTDOWN-ACK / SHUTDOWN-COMPLETE / ABORT / ERROR / HEARTBEAT / RE-CONFIG; a late authenticated "
+          "STUN request from an unsignalled address); "
           "thorough: 30 configurations x those calls x every k x every closer + 600 sampled + every history family x 3 policies x "
           "BUNDLE on/off x every closer + 400 random longer histories. ")
 RULE = (RULE_X + "shutdown: case = (media configuration of the two peers, media/data flowing or not, BUNDLE kept or stripped, order of the "
@@ -473,6 +475,9 @@ class Explore(Shutdown):
             # round 5, seed sctp-stop-early-in-shutdown: the peer's SCTP stack sends SHUTDOWN, close() before SHUTDOWN COMPLETE
             {"x": 1, "policy": "balanced", "media": ["dc"], "bundle": True, "hist": "sctpinject", "inj": "shutdown",
              "stage": "open", "steps": 2, "call": [0, "yield", 0], "k": 9, "closer": "same"},
+            # round 5, seed ice-stop-leaves-late-check: a connectivity check aioice starts after ICE completed
+            {"x": 1, "policy": "balanced", "media": ["dc"], "bundle": True, "hist": "latestun", "steps": 2,
+             "call": [1, "yield", 0], "k": 9, "closer": "same"},
             # transceiver.stop() by the application racing close()
             {"x": 1, "policy": "max-bundle", "media": ["dc", "audio", "video"], "bundle": True, "call": [0, "trxStop", 0], "k": 1,
              "closer": "same"},
@@ -564,6 +569,10 @@ class Explore(Shutdown):
         fam("stopped", av, ["both", "same"] if quick else every)
         fam("stopearly", ["audio"], ["same", "both"] if quick else every)
         fam("stopearly", avd, ["same"] if quick else every)
+        # after ICE completed an authenticated STUN request arrives from an address nobody signalled: a late triggered check
+        for media in (["dc"], ["audio"]) if quick else (["dc"], ["audio"], ["audio", "video", "dc"]):
+            for steps in ((0, 2) if quick else (0, 1, 2, 4, 8)):
+                fam("latestun", media, ["same"] if quick else ["same", "both", "same2"], steps=steps)
         # the remote SCTP stack does something aiortc's own never does (a chunk injected through the remote's real transport)
         for inj in X.INJECTS:
             fam("sctpinject", ["dc"], ["same"] if quick else ["same", "both", "same2"], inj=inj, stage="open",
@@ -575,7 +584,7 @@ class Explore(Shutdown):
             for _ in range(400):
                 hist = rng.choice(X.HISTORIES[1:])
                 media = rng.choice([["audio"], ["audio", "dc"], ["audio", "video"], ["audio", "video", "dc"], ["dc", "audio"]])
-                if hist == "sctpinject":
+                if hist in ("sctpinject", "latestun"):
                     continue
                 if hist in ("abort", "abortclose") and "dc" not in media:
                     media = media + ["dc"]
